@@ -128,6 +128,13 @@ class HistoryMonitor(Monitor):
                                 "interval": float(sec["sampling_interval"]),
                                 "zero": sec.get("first_event_time_zero", "false").lower() in ("1", "yes", "true", "on"),
                                 "count": 0, "output": h.output_handler}
+            if k == "dumping":
+                for section in ctx.config.sections():
+                    if ctx.config.has_option(section, "dumping_interval"):
+                        sec = ctx.config[section]
+                        if sec.get("output_handler") == h.output_handler:
+                            self.sampling[id(h)] = {"interval": float(sec["dumping_interval"]), "zero": False,
+                                                    "count": 0, "output": h.output_handler, "dump": True}
             if k == "end_of_run":
                 for section in ctx.config.sections():
                     if ctx.config.has_option(section, "end_of_run_time"):
@@ -541,7 +548,7 @@ class HistoryMonitor(Monitor):
             return
         info = self.sampling.get(id(h))
         t = self.last_commit_time
-        if info is not None and info["output"] == name and self.kind.get(id(h)) == "sampling":
+        if info is not None and info["output"] == name and self.kind.get(id(h)) in ("sampling", "dumping"):
             k = info["count"] + (0 if info["zero"] else 1)
             info["count"] += 1
             nominal = k * info["interval"]
@@ -551,6 +558,9 @@ class HistoryMonitor(Monitor):
                 self.verdict("C17", "sample-time", "sample %d of %s taken at %r (=%r), nominal %r" % (
                     info["count"], name, t, got, nominal), ctx)
             self.samples.append((name, k, t))
+            if info.get("dump"):
+                self.stats["dumps"] += 1
+                return
             self.stats["samples"] += 1
             self.check_written_state(ctx, args, t, name)
         elif self.kind.get(id(h)) == "end_of_run":
@@ -599,6 +609,9 @@ class HistoryMonitor(Monitor):
                 self.verdict("C17", "end-time", "run ended at %r, configured %r" % (self.end_commit[1], self.end_time), ctx)
             for info in self.sampling.values():
                 first = 0 if info["zero"] else 1
+                if info.get("dump"):
+                    # the dumping event at a nominal time may be trashed by the end of run; one fewer is allowed
+                    pass
                 # number of nominal sampling times strictly before the end (a tie may go either way)
                 n_lo = n_hi = 0
                 k = first
